@@ -389,6 +389,17 @@ Proof.
   apply H.
 Qed.
 
+Theorem has_condorcet_winner_anonymous : forall p p', pw_domain p -> pw_domain p' -> profile_equiv p p' ->
+  res_equiv eq (has_condorcet_winner cand ceqb p) (has_condorcet_winner cand ceqb p').
+Proof.
+  intros p p' Hd Hd' He. unfold Pairwise.has_condorcet_winner.
+  pose proof (dominating_tiers_anonymous p p' Hd Hd' He) as H.
+  destruct (dominating_tiers p) as [t|e]; destruct (dominating_tiers p') as [t'|e'];
+    cbn [res_equiv] in H; try contradiction; cbn [rbind ok res_equiv]; [|exact H].
+  destruct H as [|g g' r r' Hg _]; [reflexivity|]. cbn [res_equiv ok].
+  rewrite (Permutation_length Hg). reflexivity.
+Qed.
+
 Lemma dominating_tiers_total : forall p, wf_profile p -> exists t, dominating_tiers p = inl t.
 Proof.
   intros p Hw. unfold Pairwise.dominating_tiers, Pairwise.pairwise_graph.
